@@ -419,6 +419,12 @@ def markChecking (s : State) : State :=
 
 /-! ### queries -/
 
+/-- `getCurrentAllocationNumber()`: the number the next successful allocation gets -/
+def getCurrentAllocationNumber (s : State) : Nat := s.seq
+
+/-- `getCurrentAllocationStage()` -/
+def getCurrentAllocationStage (s : State) : BitVec 8 := s.stage
+
 /-- `totalMemoryLeaks(period)` -/
 def totalMemoryLeaks (s : State) (p : Period) : Nat := s.table.getTotalLeaks p
 
